@@ -1,3 +1,4 @@
 pub mod c03_certs;
 pub mod c04_admission;
+pub mod c06_safe_to;
 pub mod c15_merkle;
